@@ -200,6 +200,17 @@ pub fn sv_solve(sid: u32, solver: &mut DefaultSolver<f64>) -> Result<Snap, Strin
     match r {
         Ok(()) => {
             let snap = Snap::of(solver);
+            with_sim(|m| {
+                m.fold_result(sid as u64);
+                m.fold_result(snap.status as u64);
+                m.fold_result(snap.iterations as u64);
+                for v in snap.x.iter().chain(&snap.s).chain(&snap.z) {
+                    m.fold_result(v.to_bits());
+                }
+                for v in [snap.obj_val, snap.obj_val_dual, snap.r_prim, snap.r_dual] {
+                    m.fold_result(v.to_bits());
+                }
+            });
             call(sid, "solve", true, snap.short());
             Ok(snap)
         }
